@@ -169,6 +169,6 @@ def values_for(element):
     vals = list(values_quick())
     vals += [{"a": "x"}, {"a": "x", "b": 1}, {"b": "x"}, {"a": 1}, {"class": "k"}, {"class_": "k"}, {"a-b": 1}, {"a_b": 1},
              {"a-b": 1, "a_b": "s"}, {"x": 1, "b": "s"}, {"x": 1, "a": "s", "b": 2}, {"inner": {"n": 1}}, {"inner": {"n": 1}, "many": [{"n": 2.5}]},
-             {"o": {"a": "s"}}, ["a", 1], ["a", 1, 2], ["a", "b"], [1, 2], [1.5], "aa", "abc", 4, 2.0, 0.5,
+             {"o": {"a": "s"}}, {"": 1}, {"": "s"}, {"blank": 1}, {"blank": "s"}, {"": "s", "blank": "t"}, ["a", 1], ["a", 1, 2], ["a", "b"], [1, 2], [1.5], "aa", "abc", 4, 2.0, 0.5,
              "123e4567-e89b-12d3-a456-426614174000", "2020-01-01T00:00:00Z", "not-a-date"]
     return vals
